@@ -46,7 +46,8 @@ fn sort_record(id : String, rules : &Vec<(Vec<String>, Vec<String>)>, goal : &st
         "out" : run_sort(rules, goal)});
     if let Some(p) = perm
     {
-        let permuted : Vec<(Vec<String>, Vec<String>)> = p.iter().map(|i| { let (t, s) = &rules[*i]; let mut t2 = t.clone(); let mut s2 = s.clone(); t2.reverse(); s2.reverse(); (t2, s2) }).collect();
+        /* the parser delivers target and source lists in a canonical order whatever the line order was, so only the order of the rules varies */
+        let permuted : Vec<(Vec<String>, Vec<String>)> = p.iter().map(|i| rules[*i].clone()).collect();
         rec["out2"] = run_sort(&permuted, goal);
     }
     rec
@@ -158,6 +159,232 @@ pub fn ident_cases(random : usize, seed : u64) -> Vec<Value>
             _ => { let mut r = r1.clone(); r.2.push("a".to_string()); r },                                        // extra command line
         };
         emit(format!("i{}.{}", seed, k), &r1, &r2, &mut out);
+    }
+    out
+}
+
+/* ------------------------------------------------------------------ C14: the rules-file parser */
+fn lex(text : &str) -> Vec<Value>
+{
+    text.split('\n').map(|l| { let lvl = l.chars().take_while(|c| *c == '\t').count(); json!({"lvl" : lvl, "nm" : l[lvl..].to_string()}) }).collect()
+}
+
+fn parse_out(text : &str) -> Value
+{
+    let t = text.to_string();
+    match std::panic::catch_unwind(move || crate::rule::parse("f.rules".to_string(), t))
+    {
+        Err(_) => json!({"res" : "panic"}),
+        Ok(Ok(rules)) => json!({"res" : "ok", "rules" : rules.iter().map(|r| json!({"tg" : r.targets, "src" : r.sources, "cmd" : r.command})).collect::<Vec<_>>()}),
+        Ok(Err(e)) =>
+        {
+            use crate::rule::ParseError as P;
+            use crate::bundle::ParseError as B;
+            let (kind, line) = match &e
+            {
+                P::UnexpectedEmptyLine(_, l) => ("EmptyLine", *l),
+                P::UnexpectedExtraColon(_, l) => ("ExtraColon", *l),
+                P::UnexpectedEndOfFileMidTargets(_, l) => ("EofT", *l),
+                P::UnexpectedEndOfFileMidSources(_, l) => ("EofS", *l),
+                P::UnexpectedEndOfFileMidCommand(_, l) => ("EofK", *l),
+                P::BundleError(_, b) => (match b { B::Empty => "BEmpty", B::ContainsEmptyLines(_) => "BEmptyLines", B::Contradiction(_, _) => "BContradiction", B::WrongIndent(_) => "BWrongIndent" }, 0),
+            };
+            json!({"res" : "err", "kind" : kind, "line" : line})
+        },
+    }
+}
+
+fn parse_record(id : String, text : &str, variant : Option<String>) -> Value
+{
+    let mut rec = json!({"id" : id, "lines" : lex(text), "out" : parse_out(text)});
+    if let Some(v) = variant { rec["out2"] = parse_out(&v); }
+    rec
+}
+
+/*  a random bundle: returns lines (with tabs) of a section */
+fn gen_bundle(rng : &mut Rng, depth : usize, names : &[&str], out : &mut Vec<String>, permuted : &mut Vec<String>)
+{
+    let n = 1 + rng.below(3);
+    let mut groups : Vec<Vec<String>> = vec![];
+    let mut used = vec![];
+    for _ in 0..n
+    {
+        let nm = names[rng.below(names.len())];
+        if used.contains(&nm) && rng.chance(3, 4) { continue; }
+        used.push(nm);
+        let mut g = vec![format!("{}{}", "\t".repeat(depth), nm)];
+        if depth < 2 && rng.chance(1, 3)
+        {
+            let mut sub = vec![]; let mut subp = vec![];
+            gen_bundle(rng, depth + 1, names, &mut sub, &mut subp);
+            g.extend(sub);
+        }
+        groups.push(g);
+    }
+    for g in groups.iter() { out.extend(g.clone()); }
+    let mut rev = groups.clone(); rev.reverse();
+    for g in rev.iter() { permuted.extend(g.clone()); }
+}
+
+pub fn parse_cases(maxlen : usize, random : usize, seed : u64) -> Vec<Value>
+{
+    let mut out = vec![];
+    /* every sequence of at most maxlen lines over a 7-letter line alphabet */
+    let alpha = ["", ":", "a", "b", "\ta", "\t", "\t\tb"];
+    let mut seqs : Vec<Vec<usize>> = vec![vec![]];
+    let mut frontier : Vec<Vec<usize>> = vec![vec![]];
+    for _ in 0..maxlen
+    {
+        let mut next = vec![];
+        for s in frontier.iter() { for a in 0..alpha.len() { let mut t = s.clone(); t.push(a); next.push(t); } }
+        seqs.extend(next.clone());
+        frontier = next;
+    }
+    for (k, s) in seqs.iter().enumerate()
+    {
+        let text = s.iter().map(|a| alpha[*a]).collect::<Vec<_>>().join("\n");
+        out.push(parse_record(format!("e{}", k), &text, None));
+    }
+    /* rendered random rule sets, their corruptions, token soup */
+    let mut rng = Rng::new(seed);
+    let names = ["a", "b c", "d:e", "f", "g\r", "h\u{e9}", "src", "x.y"];
+    for r in 0..random
+    {
+        let nr = 1 + rng.below(3);
+        let mut text = String::new(); let mut ptext = String::new();
+        for _ in 0..rng.below(2) { text.push('\n'); ptext.push('\n'); }
+        for k in 0..nr
+        {
+            for _sec in 0..2
+            {
+                let mut l = vec![]; let mut p = vec![];
+                gen_bundle(&mut rng, 0, &names, &mut l, &mut p);
+                for x in l { text.push_str(&x); text.push('\n'); }
+                for x in p { ptext.push_str(&x); ptext.push('\n'); }
+                text.push_str(":\n"); ptext.push_str(":\n");
+            }
+            let nc = 1 + rng.below(3);
+            for c in 0..nc { let line = format!("{} cmd{} {}", if rng.chance(1, 5) { "\t" } else { "" }, c, names[rng.below(names.len())]); text.push_str(&line); text.push('\n'); ptext.push_str(&line); ptext.push('\n'); }
+            text.push_str(":\n"); ptext.push_str(":\n");
+            if k + 1 < nr || rng.chance(1, 2) { let nb = if rng.chance(1, 6) { 0 } else { 1 + rng.below(2) }; for _ in 0..nb { text.push('\n'); ptext.push('\n'); } }
+        }
+        if rng.chance(1, 2) && text.ends_with('\n') { text.pop(); ptext.pop(); }
+        out.push(parse_record(format!("w{}.{}", seed, r), &text, Some(ptext)));
+        /* single-edit corruptions */
+        let lines : Vec<&str> = text.split('\n').collect();
+        for c in 0..4
+        {
+            let mut l : Vec<String> = lines.iter().map(|s| s.to_string()).collect();
+            let at = rng.below(l.len().max(1));
+            match c
+            {
+                0 => { if l.len() > 1 { l.remove(at); } },
+                1 => { l.insert(at, "".to_string()); },
+                2 => { l.insert(at, ":".to_string()); },
+                _ => { l.truncate(at); },
+            }
+            out.push(parse_record(format!("c{}.{}.{}", seed, r, c), &l.join("\n"), None));
+        }
+        if r % 5 == 0
+        {
+            let toks = ["a", ":", "", "\t", "\tb", "\r", ": ", " :", "\t:", "\u{e9}", "\t\t", "c d"];
+            let n = rng.below(9);
+            let soup : Vec<&str> = (0..n).map(|_| toks[rng.below(toks.len())]).collect();
+            out.push(parse_record(format!("s{}.{}", seed, r), &soup.join("\n"), None));
+        }
+    }
+    out
+}
+
+/* ------------------------------------------------------------------ C16: state files */
+pub fn persist_cases(n : usize, seed : u64) -> Vec<Value>
+{
+    use crate::vsys::VSystem;
+    use crate::system::System;
+    use crate::history::{History, RuleHistory};
+    use crate::current::CurrentFileStates;
+    use crate::blob::{FileStateVec, FileState};
+    use crate::ticket::TicketFactory;
+    use std::io::{Read, Write};
+    let mut rng = Rng::new(seed);
+    let mut out = vec![];
+    let tk = |s : String| TicketFactory::from_str(&s).result();
+    let read_bytes = |sys : &VSystem, p : &str| -> Vec<u8> { let mut f = sys.open(p).unwrap(); let mut b = vec![]; f.read_to_end(&mut b).unwrap(); b };
+    let write_bytes = |sys : &VSystem, p : &str, b : &[u8]| { let mut s2 = sys.clone(); let mut f = s2.create_file(p).unwrap(); f.write_all(b).unwrap(); };
+    let damage = |rng : &mut Rng, bytes : &Vec<u8>| -> Vec<(String, Vec<u8>)>
+    {
+        let mut v = vec![("whole".to_string(), bytes.clone())];
+        let np = if bytes.len() <= 120 { bytes.len() } else { 24 };
+        for k in 0..np { let cut = if bytes.len() <= 120 { k } else { rng.below(bytes.len()) }; v.push(("prefix".to_string(), bytes[..cut].to_vec())); }
+        let nf = if bytes.len() <= 60 { bytes.len() * 8 } else { 40 };
+        for k in 0..nf { let bit = if bytes.len() <= 60 { k } else { rng.below(bytes.len() * 8) }; let mut b = bytes.clone(); b[bit / 8] ^= 1 << (bit % 8); v.push(("flip".to_string(), b)); }
+        for _ in 0..4 { let len = rng.below(200); v.push(("junk".to_string(), (0..len).map(|_| rng.below(256) as u8).collect())); }
+        let mut e = bytes.clone(); e.push(rng.below(256) as u8); v.push(("extra".to_string(), e));
+        v
+    };
+    for case in 0..n
+    {
+        let sys = VSystem::new("h", false);
+        { let mut s2 = sys.clone(); s2.create_dir("h").unwrap(); }
+        /* a rule history */
+        let entries = if case % 3 == 0 { rng.below(3) } else { rng.below(51) };
+        let nt = 1 + rng.below(8);
+        let mut rh = RuleHistory::new();
+        for e in 0..entries
+        {
+            let tickets = (0..nt).map(|t| tk(format!("t{}.{}.{}", case, e, t))).collect();
+            let _ = rh.insert(tk(format!("s{}.{}", case, e)), FileStateVec::from_ticket_vec(tickets));
+        }
+        let rt = tk(format!("rule{}", case));
+        let mut hist = History::new(sys.clone(), "h");
+        hist.write_rule_history(rt.clone(), rh.clone()).unwrap();
+        let path = format!("h/{}", rt);
+        let good = read_bytes(&sys, &path);
+        let mine = crate::project::decode_history(&good);
+        if mine.map(|m| m.len()) != Some(entries) { out.push(json!({"id" : format!("h{}.decoder", case), "file" : "history", "how" : "whole", "outcome" : "error", "note" : "independent decoder disagrees"})); }
+        for (k, (how, bytes)) in damage(&mut rng, &good).into_iter().enumerate()
+        {
+            if how == "flip" && bytes == good { continue; }
+            write_bytes(&sys, &path, &bytes);
+            let h2 = History::new(sys.clone(), "h");
+            let rt2 = rt.clone();
+            let res = std::panic::catch_unwind(std::panic::AssertUnwindSafe(move || h2.read_rule_history(&rt2)));
+            let outcome = match res { Err(_) => "panic", Ok(Err(_)) => "error", Ok(Ok(r)) => if r == rh { "same" } else { "other" } };
+            out.push(json!({"id" : format!("h{}.{}", case, k), "file" : "history", "how" : how, "len" : bytes.len(), "outcome" : outcome}));
+        }
+        /* a file-state table */
+        let entries = if case % 3 == 0 { rng.below(3) } else { rng.below(51) };
+        let tpath = "h/current_file_states".to_string();
+        let mut table = CurrentFileStates::from_file(sys.clone(), tpath.clone()).unwrap();
+        let mut orig = vec![];
+        for e in 0..entries
+        {
+            let st = FileState{ticket : tk(format!("c{}.{}", case, e)), timestamp : rng.next() % 1_000_000_007, executable : rng.chance(1, 2)};
+            let p = format!("dir{}/file{}", e % 4, e);
+            table.insert_file_state(p.clone(), st.clone());
+            orig.push((p, st));
+        }
+        table.to_file().unwrap();
+        let good = read_bytes(&sys, &tpath);
+        for (k, (how, bytes)) in damage(&mut rng, &good).into_iter().enumerate()
+        {
+            if how == "flip" && bytes == good { continue; }
+            write_bytes(&sys, &tpath, &bytes);
+            let s3 = sys.clone(); let tp = tpath.clone();
+            let res = std::panic::catch_unwind(std::panic::AssertUnwindSafe(move || CurrentFileStates::from_file(s3, tp)));
+            let outcome = match res
+            {
+                Err(_) => "panic", Ok(Err(_)) => "error",
+                Ok(Ok(mut t2)) =>
+                {
+                    let blob = t2.take_blob(orig.iter().map(|(p, _)| p.clone()).collect());
+                    let same_states = blob.get_file_infos().iter().zip(orig.iter()).all(|(i, (_, st))| i.file_state == *st);
+                    let same_size = crate::project::decode_table(&bytes).map(|m| m.len()) == Some(orig.len());
+                    if same_states && same_size { "same" } else { "other" }
+                },
+            };
+            out.push(json!({"id" : format!("t{}.{}", case, k), "file" : "table", "how" : how, "len" : bytes.len(), "outcome" : outcome}));
+        }
     }
     out
 }
